@@ -14,7 +14,7 @@ from py_gql.schema import (
 from py_gql.schema.transforms import CamelCaseSchemaTransform, VisibilitySchemaTransform, transform_schema
 from py_gql.sdl import SchemaDirective, apply_schema_directives, extend_schema
 from py_gql._string_utils import snakecase_to_camelcase
-from py_gql.utilities import introspection_query
+from py_gql.utilities import coerce_value, introspection_query
 
 from .. import gen_store, ser, ser_store
 
@@ -566,6 +566,68 @@ def _nodes_changes(before, schema):
     return bad
 
 
+def _use(schema):
+    """what using a schema does before it is cloned / transformed: coerce a variable of every input
+    object type (reads InputObjectType.field_map) and read the derived maps of the other elements"""
+    for n, t in list(schema.types.items()):
+        if n.startswith("__"):
+            continue
+        if isinstance(t, InputObjectType):
+            t.field_map
+            try:
+                coerce_value({}, t)
+            except Exception:  # noqa
+                pass
+        elif isinstance(t, (ObjectType, InterfaceType)):
+            t.field_map
+            for f in t.fields:
+                getattr(f, "argument_map", None)
+    for d in schema.directives.values():
+        getattr(d, "argument_map", None)
+    for n, t in list(schema.types.items()):
+        if isinstance(t, (InterfaceType, UnionType)) and not n.startswith("__"):
+            schema.get_possible_types(t)
+
+
+def _derived_bad(schema):
+    """the derived `field_map` of every object / interface / input object type must list exactly the
+    entries of `.fields`, each value being that very object, and refer to types registered in THIS schema"""
+    bad = []
+    for n, t in schema.types.items():
+        if n.startswith("__") or not isinstance(t, (ObjectType, InterfaceType, InputObjectType)):
+            continue
+        fields = list(t.fields)
+        fm = t.field_map
+        names = [f.name for f in fields]
+        if list(fm.keys()) != list(dict.fromkeys(names)):
+            bad.append("field_map of %s lists %s but .fields are %s" % (n, list(fm.keys())[:6], names[:6]))
+        last = {f.name: f for f in fields}           # duplicate names (an invalid result): dict semantics
+        for k, f in last.items():
+            if fm.get(k) is not f:
+                bad.append("field_map[%s.%s] is not the object in .fields" % (n, k))
+        for k, f in fm.items():
+            inner = _unwrapped(f.type)
+            if schema.types.get(inner.name) is not inner:
+                bad.append("field_map[%s.%s] refers to a %s that is not the registered object" % (n, k, inner.name))
+    return bad[:8]
+
+
+def _hidden_accepted(step, res):
+    """after hiding input fields: a value supplying a hidden field must be refused by coerce_value"""
+    acc, inconclusive = [], 0
+    for tn, fn in step.get("input_fields", []):
+        t = res.types.get(tn)
+        if not isinstance(t, InputObjectType) or fn in [f.name for f in t.fields]:
+            continue
+        try:
+            coerce_value({fn: None}, t)
+            acc.append("%s.%s" % (tn, fn))
+        except Exception as e:  # noqa
+            if "is not defined by type" not in str(e):
+                inconclusive += 1
+    return acc, inconclusive
+
+
 def _sdir_on_fresh_clone(source):
     """apply_schema_directives (with the removing / renaming directives of the harness) on a fresh
     clone of the source: the dump of the result, or the class of the library error"""
@@ -598,6 +660,8 @@ def run_impl(case):
             schemas.append(None)
             steps_obs.append(so)
             continue
+        if step.get("use"):
+            _use(target)
         status, res, err = apply_step(step, target)
         so["status"], so["err"] = status, err
         keep = res if status == "ok" else None
@@ -619,6 +683,15 @@ def run_impl(case):
             so["repeat"] = rep
         if res is not None and not step.get("inplace") and step["op"] != "extend":
             so["shared_members"] = _shared_members(target, res)
+        derived = []
+        for k in ([0] + ([on] if on != 0 else [])):
+            derived += ["schema %d: %s" % (k, x) for x in _derived_bad(schemas[k])]
+        if res is not None:
+            derived += ["result: %s" % x for x in _derived_bad(res)]
+            if step["op"] == "vis":
+                acc, inc = _hidden_accepted(step, res)
+                so["hidden_accepted"], so["hidden_inconclusive"] = acc, inc
+        so["derived_bad"] = derived[:8]
         if res is not None and step["op"] == "clone":
             # hypothesis of C14_clone_observe_equal: Schema(...) over a schema's own types lists them in
             # the same order
@@ -819,6 +892,12 @@ def direct_checks(case, obs):
         if sp.get("sdl_custom") != p0.get("sdl_custom"):
             out.append(("source-untouched: %s changed to_string(include_custom_schema_directives=True) of the "
                         "source" % tag, None))
+        if so.get("derived_bad"):
+            out.append(("closed: after %s a derived field_map is out of step with .fields / the registry: %s"
+                        % (tag, so["derived_bad"][:4]), None))
+        if so.get("hidden_accepted"):
+            out.append(("removed-unreachable: after %s coerce_value still accepts the hidden input fields %s"
+                        % (tag, so["hidden_accepted"][:4]), None))
         if so.get("nodes_bad"):
             out.append(("source-untouched: %s changed the AST nodes / applied schema directives another schema "
                         "remembers: %s" % (tag, so["nodes_bad"][:4]), None))
@@ -1002,6 +1081,11 @@ def corpus():
     out.append(_case(W32E, [{"op": "clone", "on": 0}, {"op": "extend", "on": 1, "doc": EXT},
                             {"op": "sdir", "on": 0}, {"op": "extend", "on": 0, "doc": "extend type Bar { n: Int }"},
                             {"op": "sdir", "on": 4}]))
+    # seeded C14-h: a derived map (InputObjectType.field_map) filled by using the source before it is
+    # cloned / transformed must not survive into the derived schema
+    out.append(_case(W32, [dict(_NOVIS, op="vis", on=0, input_fields=[["In", "x"], ["In2", "q"]], use=True),
+                           dict(_NOVIS, op="clone", on=0, use=True),
+                           dict(_NOVIS, op="vis", on=2, input_fields=[["In", "y_z"]], use=True)]))
     # seeded C14-g: an explicit `= null` default (has_default_value, value None) of a field argument, an
     # input field or a directive argument must survive extend_schema -- an unrelated and a related extension
     W32N = (W32.replace("bar(a: Int = 3, snake_arg: In)", "bar(a: Int = null, snake_arg: In = null, l: [Int] = null, en: E = null)")
